@@ -6,10 +6,12 @@ mod codecs;
 mod gen;
 mod ids;
 mod model;
+mod mon;
 mod node;
 mod run;
 mod util;
 mod wire;
+mod work;
 
 use run::Tier;
 
